@@ -492,7 +492,7 @@ def branchTakes (gs : Rx.Guards) (name guard : String) (line : Str) (bl : Int) :
   let ll := lower line
   g && (
     if name == "eq:contains" then ll == "contains".toList
-    else if name == "in:public,private,protected" then
+    else if name == "in:private,protected,public" then   -- members sorted by the translator
       ll == "public".toList || ll == "private".toList || ll == "protected".toList
     else if name == "eq:sequence" then ll == "sequence".toList
     else if name == "FORMAT_RE" then Rx.guardTest gs name line
